@@ -278,6 +278,15 @@ func (s *Spec) Step(ctx context.Context, st *State, pending interface{}, c *Cont
 				// bindings, use empty bindings.
 				// ToDo: Reconsider.
 				e.Bs = NewBindings()
+				if Exp_PermanentBindings {
+					// Permanent bindings survive an
+					// action that returns nothing.
+					for p, v := range bs {
+						if isPermanent(p) {
+							e.Bs[p] = v
+						}
+					}
+				}
 			}
 		}
 
